@@ -3,16 +3,16 @@ from plans import step
 PLAN = dict(
         coq_targets=["Props/C12.vo"],
         steps=[
-            step("wt-stages", "wt-stages", "wt-stages", 80, 6000),
+            step("wt-stages", "wt-stages", "wt-stages", 80, 6000, args=["corpus/c12"]),
         ],
         rule="inputs: every .sc file of /repo/examples, /repo/testsuite/{success_check,end_to_end}, corpus/fun, corpus/lang, "
-             "corpus/genfun that the REAL parser and type checker accept (the property speaks about accepted programs), plus n "
+             "corpus/genfun, corpus/c12 (capacity probes: 10..145 simultaneously live variables, main with 5..8 arguments) that the REAL parser and type checker accept (the property speaks about accepted programs), plus n "
              "programs of the seeded type-directed generator gen_fun (option sets cycle: default / shadowing + compiler-like "
              "names / effect-sequenced + shadowing + name reuse / effect-sequenced + compiler-like names / FunGenCfg::mix). "
              "One case per program = the whole real pipeline: fun2core, uniquify, focus, shrink, linearize and the three code "
              "generators (compile::<Backend> + into_*_routine), each call under catch_unwind. Every case is non-trivial (a "
              "whole program through all stages); distinct = distinct checked programs. Tags: shadow-risk/no-shadow (syntactic "
-             "detector of the capture class), x86:/a64:/rv: ok | cap (documented capacity panic) | noprint (RISC-V print), "
+             "detector of the capture class), x86:/a64:/rv: ok (within capacity) | ok-beyond (compiled outside the sufficient capacity predicate) | cap (documented capacity panic) | noprint (RISC-V print), "
              "ctx<log2 largest linear context>, ax<log2 binders>, size<log2 Fun nodes>",
         explanation="per case the checker of each language runs on the REAL output of each stage: annotated_fcprog (checked); "
                     "wt_core + pre_check + focus_wf (core); wt_core (uniquified); wt_fs + unique_binders + ids_bounded + agreement "
